@@ -134,13 +134,13 @@ def exhaustive(tier):
     sizes = [1, 2, 3, 5, 6, 7]
     gaps = [0, 1, 2, 3]
 
-    def gen(n, ovs):
+    def gen(n, ovs, gaps=gaps):
         for sz in itertools.product(sizes, repeat=n):
             for gp in itertools.product(gaps, repeat=n):
                 for ov in ovs:
                     yield {"cls": "mux_packed", "p": {"sizes": list(sz), "gaps": list(gp), "ov": ov, "dw": 1}}
     if tier == "quick":
-        parts = [("mux_packed_3regs_sizes{1,2,3,5,6,7}_gaps0-3_ov{1,2}", gen(3, [1, 2]))]
+        parts = [("mux_packed_3regs_sizes{1,2,3,5,6,7}_gaps0-2_ov{1,2}", gen(3, [1, 2], [0, 1, 2]))]
     else:
         parts = [("mux_packed_3regs_sizes{1,2,3,5,6,7}_gaps0-3_ov{0,1,2}", gen(3, [0, 1, 2]))]
     if tier == "thorough":
